@@ -84,6 +84,13 @@ def expand(item, seed):
                 yield {"scheme": "ws", "host": "name", "port": None, "path": "/", "query": None, "addrs": addrs,
                        "sockopt": [[1, 15, 1]] if len(pat) % 2 else [], "timeout": 3 * S if len(pat) != 2 else None, "seed": 1,
                        "stdlib_default_timeout": S // 4 if len(pat) == 2 else None}
+            if 2 <= len(pat) <= 3 and "other" not in pat:
+                # the same process connected to this target before, when the addresses answered differently (rotated pattern,
+                # and "only the last one accepts")
+                for earlier in (list(pat[1:] + pat[:1]), ["refused"] * (len(pat) - 1) + ["accept"]):
+                    yield {"scheme": "ws", "host": "name", "port": None, "path": "/", "query": None,
+                           "addrs": [{"fam": 4, "outcome": o} for o in pat], "sockopt": [], "timeout": 3 * S, "seed": 1,
+                           "earlier_outcomes": earlier}
     elif k == "urlgrid":
         for host in HOSTFORMS:
             for port in PORTS:
@@ -129,6 +136,8 @@ def gen(rng):
         sc["stdlib_default_timeout"] = rng.choice((S // 4, 7 * S))  # the application called socket.setdefaulttimeout(x)
     if rng.random() < 0.12:
         sc["prior_close"] = rng.choice(("clean", "write_fails", "reply_missing"))
+    elif len(sc["addrs"]) >= 2 and rng.random() < 0.25:
+        sc["earlier_outcomes"] = [rng.choice(("accept", "refused", "unreachable", "hostunreach")) for _ in sc["addrs"]]
     return sc
 
 
@@ -202,6 +211,13 @@ def run(sc, choices=None):
         w.net.add_host("prior.sim.test", [(_rs.AF_INET, "10.2.9.9")])
         w.net.listen("10.2.9.9", 80, lambda conn: WSPeer(w, {"on_close": {"mode": "never"}} if prior_close == "reply_missing" else {}))
     outcome = None
+    earlier = sc.get("earlier_outcomes")
+    if earlier is not None:
+        # the same process has connected to this URL before, when the addresses behaved differently (the first one was down,
+        # say): the judged connection still tries the list in order
+        if malformed is not None or prior_close or sc.get("on_connected_object") or len(earlier) != len(addrs) or len(addrs) < 2 \
+                or any(o not in ("accept", "refused", "unreachable", "hostunreach") for o in earlier) or sc["host"] in ("ipv4", "ipv6"):
+            raise InvalidScenario("earlier_outcomes")
     with w:
         ws = w.ws
         if tls:
@@ -215,6 +231,21 @@ def run(sc, choices=None):
             kw["sslopt"] = {"cert_reqs": ssl.CERT_NONE, "check_hostname": False}
         first = None
         base = (0, 0)
+        if earlier is not None:
+            for (fam_, ad_), oc_ in zip(table, earlier):
+                w.net.listen(ad_, eff_port, fac, outcome=oc_)
+            for _rep in range(2):
+                try:
+                    c0 = ws.create_connection(url, timeout=None if T is None else int(T) / S, **kw)
+                    c0.close(timeout=1)
+                except SimAbort:
+                    raise
+                except BaseException:  # noqa - not judged
+                    pass
+            for (fam_, ad_), a_ in zip(table, addrs):
+                w.net.listen(ad_, eff_port, fac, outcome=a_["outcome"])
+            base = (len(w.net.resolver_calls), len(w.net.sockets))
+            res.probes["same_target_connected_before_with_other_address_outcomes"] = 1
         try:
             if prior_close:
                 # the object has been used before: connected with the same configuration, then closed - cleanly, with the close
@@ -246,6 +277,9 @@ def run(sc, choices=None):
             outcome = ("exc", exc_name(e), isinstance(e, OSError), isinstance(e, ws.WebSocketException), isinstance(e, ValueError))
     res.absorb(w, exclude_kinds=("send", "recv", "deliver") if tls else ())
     socks = w.net.sockets
+    if earlier is not None:
+        socks = socks[base[1]:]
+        del w.net.resolver_calls[:base[0]]
     if prior_close:
         if base == (0, 0):
             raise HarnessError(f"the earlier connection of the object was not established: {outcome}")
